@@ -3,16 +3,20 @@
    PolyMode  "all"   every node picks among ALL polynomials of the field (the algebra, for every secret and mask)
              "most"  all nodes but the last pick among all polynomials, the last among 2 (quick tier)
              "few"   every node picks among 2 polynomials (used with free delivery order)
+             "one"   every node has one polynomial (used with free order + re-deliveries: the question there is which
+                     messages a node holds when it passes a barrier, not the algebra)
+   MaxRedel  bound on the number of re-deliveries (free order only)
    OrderMode "free"  every interleaving of the deliveries and of the nodes' progress
              "canon" one canonical interleaving (the results do not depend on the order: that is what the "free"
                      configurations check; "canon" spends the budget on the polynomials instead): all round-1
                      deliveries, then the nodes pass the barrier in turn, ...
              "eager" another canonical interleaving: a node passes the barrier the moment it may *)
 EXTENDS Frost
-CONSTANTS MCP, MCN, MCTs, MCVs, PolyMode, OrderMode
+CONSTANTS MCP, MCN, MCTs, MCVs, PolyMode, OrderMode, MaxRedel
 MCInit == \E t \in MCTs, nv \in MCVs : t <= MCN /\ InitWith(MCN, t, nv, MCP)
 Few(i) == {[v \in Vals |-> [k \in 1..LibThreshold |-> Mod(i + 2 * v + a * k * k + (a - 1) * i * k)]] : a \in {1, 2}}
-Polys(i) == IF PolyMode = "all" \/ (PolyMode = "most" /\ i < par.n) THEN [Vals -> [1..LibThreshold -> Zp]] ELSE Few(i)
+One(i) == {[v \in Vals |-> [k \in 1..LibThreshold |-> Mod(i + 2 * v + k * k)]]}
+Polys(i) == IF PolyMode = "one" THEN One(i) ELSE IF PolyMode = "all" \/ (PolyMode = "most" /\ i < par.n) THEN [Vals -> [1..LibThreshold -> Zp]] ELSE Few(i)
 Pend1C == {m \in Nodes \X Nodes : m[1] # m[2] /\ phase[m[1]] # "idle" /\ m[1] \notin got1c[m[2]]}
 Pend1P == {m \in Nodes \X Nodes : m[1] # m[2] /\ phase[m[1]] # "idle" /\ m[1] \notin got1p[m[2]]}
 Pend2 == {m \in Nodes \X Nodes : m[1] # m[2] /\ phase[m[1]] \in {"r2", "done"} /\ m[1] \notin got2[m[2]]}
@@ -23,6 +27,7 @@ Idle == {i \in Nodes : phase[i] = "idle"}
 FreeNext == \/ \E i \in Nodes : \E c \in Polys(i) : Start(i, c)
             \/ \E i, j \in Nodes : Deliver1C(i, j) \/ Deliver1P(i, j) \/ Deliver2(i, j)
             \/ \E j \in Nodes : Ret1(j) \/ Ret2(j)
+            \/ (redel < MaxRedel /\ \E i, j \in Nodes : \E k \in Kinds : Redeliver(i, j, k))
 EagerNext == IF Idle # {} THEN \E c \in Polys(Min(Idle)) : Start(Min(Idle), c)
              ELSE IF CanRet1 # {} THEN Ret1(Min(CanRet1))
              ELSE IF Pend1C \cup Pend1P # {}
